@@ -34,7 +34,7 @@ PURE_INT = {
 
 # events that neither change nor publish anything: a body made only of these (plus stores to diagnostic fields) is an observer
 READ_ONLY = {'PANIC', 'UNREACHABLE', 'LOCK', 'UNLOCK', 'TRYLOCK', 'TRYLOCK_CALL', 'RD', 'RDMEM', 'WRMEM', 'BR', 'BR?', 'RET', 'DROP', 'CALL', 'ASSERT',
-             'WL.len', 'WL.is_empty', 'Q.len', 'Q.is_empty', 'Q.capacity', 'WL.capacity', 'NOW', 'INTRINSIC', 'OPT.unwrap'}
+             'WL.len', 'WL.is_empty', 'WL.iter', 'WL.front', 'WL.back', 'Q.iter', 'Q.front', 'Q.back', 'Q.len', 'Q.is_empty', 'Q.capacity', 'WL.capacity', 'NOW', 'INTRINSIC', 'OPT.unwrap'}
 
 _PINNED_API = None
 
@@ -363,3 +363,42 @@ def strip(body, evs):
         for n, e in enumerate(out):
             e.idx = n
     return out
+
+
+def free_observer(facts, key):
+    """a NEW public function (not part of the pinned API, called by nothing in the crate) that only looks: every path consists of
+    lock / unlock / reads / branches / calls that are not channel events.  Whatever it computes leaves the crate through its
+    return value and cannot reach a pinned operation."""
+    import sem
+    if key in pinned_api() or '{closure' in key:
+        return False
+    b = facts.bodies.get(key)
+    if b is None:
+        return False
+    if str(b.j.get('vis', '')) not in ('Public', 'public', 'pub'):
+        return False
+    from mir import canon
+    for k2, b2 in facts.bodies.items():
+        if k2 == key:
+            continue
+        for blk in b2.blocks:
+            t = blk['term']
+            if t['k'] == 'call' and t.get('fn') and canon(t['fn']['path']) == key:
+                return False
+    try:
+        ps = b.paths(1)
+    except Exception:
+        return False
+    if not ps:
+        return False
+    D, _ = get(facts)
+    for p in ps:
+        if p.end == 'unreachable':
+            continue
+        for e in sem.project_raw(p):
+            if e.name in READ_ONLY or e.name.startswith('VD.'):
+                continue
+            if e.name == 'WR' and ev_field(b, e) in D:
+                continue
+            return False
+    return True
